@@ -134,8 +134,10 @@ theorem scan_ser : ∀ (es : List Entry) (pre rest : Bytes) (fuel : Nat), Chain 
     rw [show (e :: es).length + fuel = (es.length + fuel) + 1 by simp; omega]
     simp only [scan, hre]
     rw [hfile, ← hlen, ih]
-    simp [ser, List.append_assoc, Entry.bytes_length hwf]
-    omega
+    have hl2 : (pre ++ e.bytes).length + (ser es).length = pre.length + (ser (e :: es)).length := by
+      simp [ser]; omega
+    rw [hl2]
+    simp
 
 /-- a segment file holding exactly the appended entries -/
 def fileOf (es : List Entry) : Bytes := hdr ++ ser es
@@ -165,7 +167,8 @@ theorem entries_fileOf (es : List Entry) (h : Chain hdrSize es) : entries (fileO
   rw [hfuel]
   have := scan_ser es hdr [] ((fileOf es).length + 1 - es.length) h
   simp only [List.append_nil] at this
-  rw [fileOf, hdr_length.symm ▸ this]
+  rw [fileOf] at *
+  rw [show hdrSize = hdr.length from rfl, this]
   have hz : readEntry (hdr ++ ser es) (hdr.length + (ser es).length) = none :=
     readEntry_zero _ _ (byteAt_ge _ _ (by simp))
   cases hf : (hdr ++ ser es).length + 1 - es.length with
